@@ -260,6 +260,10 @@ func (c *ExpressionParser) completeLexicalAnalysis() error {
 			}
 		case tokenizers.Word:
 			{
+				// An empty quoted identifier ("") names nothing and stays an unknown symbol
+				if token.Value() == "" {
+					break
+				}
 				tokenType = Variable
 				tokenValue = variants.VariantFromString(token.Value())
 				break
